@@ -85,7 +85,9 @@ def run_world(world, tier="quick", timeout=120.0):
     for res in results:
         viol.extend(res["viol"])
         if res["stall"]:
-            viol.append({"prop": "C20", "inv": "I7", "aspect": "stall", "site": "run", "pass": res["name"], "detail": res["stall"]})
+            # a parked thread may hold a blocking primitive the running thread waits for: under the baton that is
+            # an artefact of the scheduler, not a verdict - classified as a harness error (exit 2, never exit 0)
+            harness.append(f"stall in {res['name']}: {res['stall']}")
     viol.extend(runner.compare_outcomes(world, results))
     rng = random.Random(world.get("seed", 0) ^ 0x150)
     niso = world.get("niso", 2 if tier == "quick" else 5)
